@@ -148,6 +148,18 @@ pub fn run(ctx: &Ctx, rep: &mut Report) {
                 probe_refuses = !probe_refuses;
                 set_probe_fail(&mut w.u, &probe_tok, probe_refuses);
             }
+            if rng.chance(1, 12) {
+                let d = rng.ledger_jump();
+                if w.u.advance(d) {
+                    rep.step(format!("ledger advances by {}", d));
+                    rep.count("advance-ledger");
+                    if let Some(dd) = w.check_registry() {
+                        rep.violation("registry-or-trust-changed-by-passing-time", dd);
+                        alive = false;
+                        break;
+                    }
+                }
+            }
             let op = OPS[rng.weighted(&[10, 8, 2, 2, 2])];
             let t = toks[rng.usize(toks.len())].clone();
             let user = users[rng.usize(users.len())].clone();
